@@ -522,6 +522,23 @@ def storeOfRun (nm : List String → String) (nodes : List SNode)
       | some (path, dims) => I ⟨path, dims.map fun d => (d, (f.lookup d).getD .none)⟩
       | none => [] }
 
+/-! ### the domain on which the static model is tied to the compiler -/
+
+mutual
+/-- no run-time `disabled` control is (or contains) an element of a split collection: for those the
+compiler simplifies the control (`resolveDisableExp` on `SplitExp`: single elements, all-equal
+literals, distribution over a literal) — not modelled, such programs are not compared with
+`MakeCallGraph` -/
+def ctlNoSplit : STree → Bool
+  | .node _ => true
+  | .sub _ _ _ _ ch => ctlNoSplitList ch
+  | .guard d ch => !hasSplitR d && ctlNoSplitList ch
+  | .subR _ _ _ _ _ ch => ctlNoSplitList ch
+def ctlNoSplitList : List STree → Bool
+  | [] => true
+  | t :: ts => ctlNoSplit t && ctlNoSplitList ts
+end
+
 /-- a stage instance of den as the code delivers it: "no value" (`dnull`) rendered as JSON null -/
 def eraseInst (i : Inst) : Inst := { i with args := J.erase i.args }
 
